@@ -1,4 +1,4 @@
-from jinja2 import Environment, StrictUndefined, contextfilter
+from jinja2 import Environment, StrictUndefined, Undefined, contextfilter
 from jinja2.nativetypes import NativeEnvironment
 
 from rpft.logger.logger import get_logger
@@ -8,6 +8,37 @@ LOGGER = get_logger()
 
 class CellParserError(Exception):
     pass
+
+
+class CellUndefined(StrictUndefined):
+    """Undefined template variable that cannot be used in any way.
+
+    StrictUndefined raises an error when it is printed, compared, iterated or tested
+    for truth, but repr() still returns "Undefined". repr() is what Python uses to
+    show the elements of a list, dict or tuple, so "{{ [missing] }}" rendered
+    "[Undefined]" without any error. Here, repr() raises the same error that str()
+    raises. The "default" filter and the "is defined" test work as before.
+    """
+
+    __slots__ = ()
+    __repr__ = StrictUndefined._fail_with_undefined_error
+
+
+def fail_if_undefined(value):
+    """Raise an UndefinedError if a native ({@ @}) result is or holds an undefined.
+
+    A native template returns the Python object itself rather than its string
+    form, so an undefined variable inside a list, tuple or dict would otherwise
+    reach the caller without ever being looked at.
+    """
+    if isinstance(value, Undefined):
+        value._fail_with_undefined_error()
+    elif isinstance(value, dict):
+        for v in value.values():
+            fail_if_undefined(v)
+    elif isinstance(value, (list, tuple)):
+        for v in value:
+            fail_if_undefined(v)
 
 
 class CellParser:
@@ -33,13 +64,13 @@ class CellParser:
         return eval(string, {}, context)
 
     def __init__(self):
-        self.env = Environment(undefined=StrictUndefined)
+        self.env = Environment(undefined=CellUndefined)
         self.env.filters["escape"] = CellParser.escape_string
         self.env.filters["eval"] = CellParser.evaluate_string
         self.native_env = NativeEnvironment(
             variable_start_string="{@",
             variable_end_string="@}",
-            undefined=StrictUndefined,
+            undefined=CellUndefined,
         )
         self.native_env.filters["escape"] = CellParser.escape_string
         self.native_env.filters["eval"] = CellParser.evaluate_string
@@ -137,7 +168,10 @@ class CellParser:
                 is_object.boolean = True
 
         try:
-            return env.from_string(stripped).render(context)
+            result = env.from_string(stripped).render(context)
+            if env is self.native_env:
+                fail_if_undefined(result)
+            return result
         except Exception as e:
             LOGGER.critical(
                 f'Error while parsing cell "{stripped}" with context "{context}":'
